@@ -73,6 +73,8 @@ def amin(
         poly, graded=options["sort_graded"], reverse=options["sort_reverse"]
     )
     indices = numpy.amin(proxy, axis=axis, **kwargs)
-    out = poly[numpy.isin(proxy, indices)]
-    out = out[numpy.argsort(indices.ravel())]
+    # the proxy is a permutation of 0..size-1: look up where each selected
+    # rank sits, in the order numpy reports the selected ranks
+    positions = numpy.argsort(proxy.ravel())[indices.ravel()]
+    out = numpoly.reshape(poly, (-1,))[positions]
     return numpoly.reshape(out, indices.shape)
